@@ -242,6 +242,8 @@ def check(src, kind):
         return
     toks, errs, lit = top
     nontrivial = bool(errs) or any(ord(c) > 127 for c in src)
+    if any(0xD800 <= ord(c) <= 0xDFFF for c in src):
+        count("results_for_non_unicode_str")
     n = len(src)
     # position tables on code points
     line_at = [1] * (n + 1)
@@ -348,7 +350,7 @@ def check(src, kind):
         if not (0 <= co <= n):
             finding("C20.error|char-offset-range", "error char offset %r outside the source" % co, src)
         else:
-            if len(src[:co].encode("utf-8")) != rec["at_byte_offset"]:
+            if len(src[:co].encode("utf-8", "surrogatepass")) != rec["at_byte_offset"]:
                 finding("C20.error|byte-vs-char", "error byte offset %r does not match char offset %r" % (rec["at_byte_offset"], co), src)
             if (rec["on_line"], rec["at_column"]) != (line_at[co], co - line_start[co]):
                 finding("C20.error|line-col", "error at char %d: (%d,%d) expected (%d,%d)" % (
@@ -370,6 +372,7 @@ def check(src, kind):
 nontrivial_hashes = set()
 samples = []
 t0 = time.time()
+n_inputs = 0
 data = open(inputs_path, "rb").read()
 pos = 0
 while pos + 5 <= len(data):
@@ -378,6 +381,14 @@ while pos + 5 <= len(data):
     src = data[pos + 5:pos + 5 + ln].decode("utf-8")
     pos += 5 + ln
     check(src, kind)
+    n_inputs += 1
+    # the Python str -> extension boundary: strings that are not valid Unicode (lone surrogates,
+    # e.g. from open(..., errors="surrogateescape")). Whenever a result comes back the contract
+    # must hold on the string that was passed in.
+    if n_inputs % 10 == 0 and len(src) < 2000:
+        k = (n_inputs * 7919) % (len(src) + 1)
+        check(src[:k] + "\udc80" + src[k:], 0)
+        count("lone_surrogate_inputs")
 
 json.dump({
     "counters": counters,
@@ -389,4 +400,4 @@ json.dump({
     "decoder": DECODER,
     "enum_sizes": {"TokenType": len(TOKEN_TYPES), "TokenChannel": len(CHANNELS), "ErrorKind": len(ERROR_KINDS)},
     "wall_s": time.time() - t0,
-}, open(out_path, "w", encoding="utf-8"), ensure_ascii=False)
+}, open(out_path, "w", encoding="ascii"), ensure_ascii=True)
